@@ -246,7 +246,7 @@ H("c11_bc_drop_last_o1", L, "C11", ["C11", "C03", "C06"], "quick",
 for _suf, _lo, _hi in (("a", 1, 8), ("b", 9, 16), ("c", 17, 24)):
     H("c03_bc_addstream_sitesq_" + _suf, L, "C03", ["C03", "C10", "C01", "C06"], "thorough",
       "broadcast N=1, ring full: the producer's send (slow path: recomputation of the slowest stream over the stream list) with add_stream on the only stream and then the parent consumer's receive at its k-th shared-memory operation, k = %d..%d; afterwards the new stream must get a gap-free suffix from a position its parent held, the parent everything, and the sender must be limited by both (forced-site loop, DESIGN.md 4; nothing else is symbolic)" % (_lo, _hi),
-      "N=1, sites %d..%d of 24" % (_lo, _hi), rules=ADDRULES + [(r' @ src/scen_life', 10)], optional_covers=["an operation ran at a preemption point"] if _suf == "c" else [])
+      "N=1, sites %d..%d of 24" % (_lo, _hi), rules=ADDRULES + [(r' @ src/scen_life', 10)], optional_covers=["an operation ran at a preemption point"] if _suf != "a" else [])
 for _suf, _lo, _hi in (("a", 1, 12), ("b", 13, 24)):
     H("c10_bc_addstream_sitesq_" + _suf, L, "C10", ["C10", "C03", "C01", "C06"], "thorough",
       "broadcast N=2, ring full: the producer's send with add_stream at its k-th shared-memory operation, k = %d..%d (as c03_bc_addstream_sitesq_*, without the parent's receive)" % (_lo, _hi),
@@ -548,7 +548,7 @@ QUICK = {
     "C01": ["t1_mp_n2_o0", "t4_bc_n2_o1", "t5_bc_n2_o1"],
     "C02": ["t1_mp_n2_o2", "t3_bc_n1_o1", "t2_mp_n2_o1"],
     "C03": ["c03_fill_mp_c0", "c03_fill_bc_c1", "c03_fill_mp_c2", "c03_fill_bc_c3", "c03_fill_mp_c4", "c03_fill_bc_c5", "c03_fill_mp_c7",
-            "c03_fill_bc_c8", "c03_fill_mp_c9", "t5_mp_n1_o0", "t1_mp_n1_o0", "c03_bc_addstream_sitesq_a", "c03_bc_addstream_sitesq_b"],
+            "c03_fill_bc_c8", "c03_fill_mp_c9", "t5_mp_n1_o0", "t1_mp_n1_o0", "c03_bc_addstream_sitesq_a"],
     "C04": ["c04_bc_shared_inclone", "c04_bc_streams_inclone", "c04_bc_view_inview"],
     "C05": ["c04_mp_view_inview", "c05_seq_bc_n2_streams", "c05_seq_bc_n1_shared", "c05_seq_mp_n2_shared", "c05_mp_shared_all", "c05_bc_shared_inclone"],
     "C06": ["t4_mp_n1_o0", "t3_bc_n2_o0", "t2_bc_n2_o0", "c06_bc_sibdrop_forced", "c06_bc_sibdrop_forced_n1"],
